@@ -8,6 +8,7 @@ import os
 
 _HERE = os.path.dirname(os.path.abspath(__file__))
 SNAPSHOT = os.path.join(os.path.dirname(_HERE), "layout", "tpm20_layout.json")
+TEXTFORMS = os.path.join(os.path.dirname(_HERE), "layout", "tpm20_textforms.json")
 
 ENC_TPM2B = "TPM2B_ENCRYPTED_PARAM"
 TAG_NO_SESSIONS = 0x8001
@@ -25,6 +26,24 @@ class Layout:
         self.framing = raw["framing"]
         self.cc_by_name = {v["name"]: k for k, v in self.commands.items()}
         self.synthetic = {}
+        self._text = None
+
+    # ---- pinned text forms -------------------------------------------------------------
+    def text(self, tname, v):
+        """pinned text form of a *valid* value of a primitive type, or None where nothing is pinned (attribute
+        words, response codes, invalid values, synthetic types)"""
+        if self._text is None:
+            with open(TEXTFORMS) as f:
+                self._text = json.load(f)["types"]
+        for lo, hi, rule in self._text.get(tname, ()):
+            if lo <= v <= hi:
+                k = rule["k"]
+                if k == "dec":
+                    return str(v)
+                if k == "named":
+                    return rule["p"] + "%0*x" % (rule["n"], v - rule["b"])
+                return rule["t"].get(str(v))
+        return None
 
     # ---- type helpers -------------------------------------------------------------------
     def kind(self, tname):
